@@ -6,6 +6,7 @@ from fractions import Fraction
 from math import ceil
 
 from vf.combi import digits
+from vf.guard import call as gcall, too_many_hangs
 from vf.core import Job, new_result, viol
 
 LEVEL = "exploration"
@@ -33,7 +34,7 @@ def judge_knapsack(values, weights, capacity, minimize, exact):
 
     n = len(values)
     try:
-        res = solve_knapsack(list(values), list(weights), capacity, minimize=minimize)
+        res = gcall(lambda: solve_knapsack(list(values), list(weights), capacity, minimize=minimize))
     except Exception as ex:  # noqa: BLE001
         return [("raised", f"{type(ex).__name__}: {ex}")], "raised", False
     errs = []
@@ -70,7 +71,7 @@ def judge_binpack(sizes, capacity, algorithm, exact, opt):
 
     n = len(sizes)
     try:
-        res = solve_bin_pack(list(sizes), capacity, algorithm=algorithm)
+        res = gcall(lambda: solve_bin_pack(list(sizes), capacity, algorithm=algorithm))
     except Exception as ex:  # noqa: BLE001
         return [("raised", f"{type(ex).__name__}: {ex}")], "raised"
     a = res.solution
@@ -151,7 +152,7 @@ def _knap_chunk(params, lo, hi):
         weights = [d // 4 for d in ds]
         errs, label, nt = judge_knapsack(values, weights, cap, minimize, True)
         _rec(r, "solve_knapsack", errs, label, nt, {"values": values, "weights": weights, "capacity": cap, "minimize": minimize})
-        if len(r["violations"]) >= 40:
+        if len(r["violations"]) >= 40 or too_many_hangs():
             r["capped"] = True
             break
     return r
@@ -169,7 +170,7 @@ def _knap_dec_chunk(params, lo, hi):
         weights = [DEC_W[d // 3] for d in ds]
         errs, label, nt = judge_knapsack(values, weights, cap, minimize, False)
         _rec(r, "solve_knapsack", errs, label, nt, {"values": values, "weights": weights, "capacity": cap, "minimize": minimize, "decimal": True})
-        if len(r["violations"]) >= 40:
+        if len(r["violations"]) >= 40 or too_many_hangs():
             r["capped"] = True
             break
     return r
@@ -188,7 +189,7 @@ def _bin_chunk(params, lo, hi):
         for algo in ALGOS:
             errs, label = judge_binpack(sizes, cap, algo, True, opt)
             _rec(r, "solve_bin_pack", errs, label, opt > 1, {"sizes": sizes, "capacity": cap, "algorithm": algo})
-        if len(r["violations"]) >= 40:
+        if len(r["violations"]) >= 40 or too_many_hangs():
             r["capped"] = True
             break
     return r
@@ -205,7 +206,7 @@ def _bin_dec_chunk(params, lo, hi):
             errs, label = judge_binpack(sizes, 1.0, algo, False, opt)
             # float accumulation may legitimately open one extra bin; the guarantee is judged against intended values
             _rec(r, "solve_bin_pack", errs, label, opt > 1, {"sizes": sizes, "capacity": 1.0, "algorithm": algo, "decimal": True})
-        if len(r["violations"]) >= 40:
+        if len(r["violations"]) >= 40 or too_many_hangs():
             r["capped"] = True
             break
     return r
